@@ -183,6 +183,8 @@ impl<V, A: Ord> CvRDT for MVReg<V, A> {
     open spec fn cv_inv(&self) -> bool { actor_ok::<A>() && self.basic() }
     open spec fn cv_pre(&self, other: &Self) -> bool { true }
     open spec fn cv_post(old_: &Self, other: &Self, new_: &Self) -> bool { merge_post_mv(*old_, *other, *new_) }
+    open spec fn cv_vhyp() -> bool { true }
+    open spec fn cv_flag(&self, other: &Self) -> bool { false }
 
 //@extract fn src/mvreg.rs "CvRDT for MVReg" validate_merge
     fn validate_merge(&self, _other: &Self) -> /*@ (r: @*/ Result<(), Self::Validation> /*@ ) @*/
@@ -327,6 +329,8 @@ impl<V, A: Ord> CmRDT for MVReg<V, A> {
     open spec fn cm_pre(&self, op: &Op<V, A>) -> bool { nz(op->clock@) }
     open spec fn cm_post(old_: &Self, op: &Op<V, A>, new_: &Self) -> bool { apply_post_mv(*old_, *op, *new_) }
     open spec fn cm_vpre(&self, op: &Op<V, A>) -> bool { true }
+    open spec fn cm_vhyp() -> bool { true }
+    open spec fn cm_vflag(&self, op: &Self::Op) -> bool { false }
 
 //@extract fn src/mvreg.rs "CmRDT for MVReg" validate_op
     fn validate_op(&self, _op: &Self::Op) -> /*@ (r: @*/ Result<(), Self::Validation> /*@ ) @*/
